@@ -132,9 +132,10 @@ def sql_facts(df_tree, df_src):
     if not ok:
         raise Untranslatable("sql(): dialect selection has another shape")
     default_is_output = dotted(s_dialect.value.orelse) == "self.session.output_dialect"
-    if not (isinstance(s_results, ast.Assign) and dotted(s_results.targets[0]) == "results"
+    if not (isinstance(s_results, ast.Assign) and isinstance(s_results.targets[0], ast.Name)
             and isinstance(s_results.value, ast.List) and not s_results.value.elts):
         raise Untranslatable("sql(): `results = []` not found")
+    res_name = s_results.targets[0].id      # local names are free
     if not (isinstance(s_for, ast.For) and isinstance(s_for.target, ast.Name) and not s_for.orelse
             and isinstance(s_for.iter, ast.Call) and dotted(s_for.iter.func) == "self._get_expressions"):
         raise Untranslatable("sql(): loop over self._get_expressions(...) not found")
@@ -148,9 +149,10 @@ def sql_facts(df_tree, df_src):
     if len(lb) != 3:
         raise Untranslatable(f"sql(): loop body has {len(lb)} statements, expected 3")
     s_tosql, s_openai, s_append = lb
-    if not (isinstance(s_tosql, ast.Assign) and dotted(s_tosql.targets[0]) == "sql"
+    if not (isinstance(s_tosql, ast.Assign) and isinstance(s_tosql.targets[0], ast.Name)
             and isinstance(s_tosql.value, ast.Call) and dotted(s_tosql.value.func) == "self.session._to_sql"):
         raise Untranslatable("sql(): `sql = self.session._to_sql(...)` not found")
+    sql_name = s_tosql.targets[0].id
     ts = s_tosql.value
     only_keywords(ts, {"dialect", "pretty", "quote_identifiers"}, 1, star_kwargs_ok=True)
     if dotted(ts.args[0]) != loopvar:
@@ -160,16 +162,16 @@ def sql_facts(df_tree, df_src):
     if not (isinstance(s_openai, ast.If) and dotted(s_openai.test) == "openai_config" and not s_openai.orelse):
         raise Untranslatable("sql(): the statement after _to_sql is not `if openai_config:`")
     if not (isinstance(s_append, ast.Expr) and isinstance(s_append.value, ast.Call)
-            and dotted(s_append.value.func) == "results.append" and len(s_append.value.args) == 1
-            and dotted(s_append.value.args[0]) == "sql"):
+            and dotted(s_append.value.func) == res_name + ".append" and len(s_append.value.args) == 1
+            and dotted(s_append.value.args[0]) == sql_name):
         raise Untranslatable("sql(): `results.append(sql)` not found")
     if not (isinstance(s_aslist, ast.If) and dotted(s_aslist.test) == "as_list" and len(s_aslist.body) == 1
-            and isinstance(s_aslist.body[0], ast.Return) and dotted(s_aslist.body[0].value) == "results"):
+            and isinstance(s_aslist.body[0], ast.Return) and dotted(s_aslist.body[0].value) == res_name):
         raise Untranslatable("sql(): `if as_list: return results` not found")
     r = s_ret.value if isinstance(s_ret, ast.Return) else None
     if not (isinstance(r, ast.Call) and isinstance(r.func, ast.Attribute) and r.func.attr == "join"
             and isinstance(r.func.value, ast.Constant) and r.func.value.value == ";\n"
-            and len(r.args) == 1 and dotted(r.args[0]) == "results"):
+            and len(r.args) == 1 and dotted(r.args[0]) == res_name):
         raise Untranslatable("sql(): final `';\\n'.join(results)` not found")
     return {
         "sql_ge_optimize": barg(ge, "optimize", params), "sql_ge_quote": barg(ge, "quote_identifiers", params),
@@ -387,6 +389,27 @@ def no_engine_override(repo):
 
 def b(x):
     return "true" if x else "false"
+
+
+def collect_render_cfg(facts):
+    """(quote_identifiers, pretty) with which collect() renders, computed from the regenerated plumbing exactly as
+    Render.collect_quote / Render.collect_pretty do (the check also asks Coq and compares)"""
+    v = {}
+    for f in facts:
+        if isinstance(f.get("value"), dict):
+            v.update(f["value"])
+
+    def resolve(arg, env_quote, default):
+        if arg == "Default":
+            return default
+        if arg.startswith("(Const"):
+            return "true" in arg
+        if arg == "(Fwd PQuote)":
+            return env_quote
+        return False      # Fwd POptimize / PPretty: collect_env maps them to false
+
+    return (resolve(v["col_ts_quote"], v["scollect_default_quote"], v["ts_default_quote"]),
+            resolve(v["col_ts_pretty"], v["scollect_default_quote"], v["ts_default_pretty"]))
 
 
 def generate(repo: str, reserved=None):
